@@ -96,26 +96,23 @@ func tokenizeStream(src io.Reader, normalize bool, dict *dictionary, updateDict 
 
 	var doc indexedDocument
 
-	isEOF := func(in error) bool {
-		return in == io.EOF || in == io.ErrUnexpectedEOF
-	}
-
 	// Read out the stream in chunks
 	for {
 		// Fill up the buffer with bytes to extract runes from
 		// idx is offset to hold any bytes left over from previous reads
-		n, err := io.ReadFull(src, rbuf[idx:])
+		n, eof, err := fill(src, rbuf[idx:])
+		if err != nil {
+			return nil, err
+		}
 		// valid is the number of bytes in rbuf that hold input.
 		valid := bufSize
-		if isEOF(err) {
+		if eof {
 			// There are no more bytes to read, so we must now consume all bytes in the
 			// buffer.
 			tgt = idx + n
 			// Bytes of an earlier read may linger behind the end of the input; they
 			// must not complete a truncated rune.
 			valid = tgt
-		} else if err != nil {
-			return nil, err
 		}
 
 		for idx = 0; idx < tgt; {
@@ -229,7 +226,7 @@ func tokenizeStream(src io.Reader, normalize bool, dict *dictionary, updateDict 
 		}
 
 		// Break out if we have consumed all read bytes
-		if isEOF(err) {
+		if eof {
 			break
 		}
 
@@ -252,6 +249,24 @@ func tokenizeStream(src io.Reader, normalize bool, dict *dictionary, updateDict 
 	doc.runes = diffWordsToRunes(&doc, 0, doc.size())
 	doc.Norm = doc.normalized()
 	return &doc, nil
+}
+
+// fill reads from src until buf is full, the input ends (eof) or the reader
+// fails. Unlike io.ReadFull it does not drop an error that is reported together
+// with the bytes that fill the buffer, and it does not take a reader's own
+// io.ErrUnexpectedEOF (a truncated stream) for the end of the input.
+func fill(src io.Reader, buf []byte) (n int, eof bool, err error) {
+	for n < len(buf) {
+		nn, e := src.Read(buf[n:])
+		n += nn
+		if e == io.EOF {
+			return n, true, nil
+		}
+		if e != nil {
+			return n, false, e
+		}
+	}
+	return n, false, nil
 }
 
 func appendToDoc(doc *indexedDocument, dict *dictionary, line int, in []tokenID, ld *dictionary, normalize bool, updateDict bool, linebuf []tokenID) {
